@@ -226,4 +226,374 @@ theorem Tlv.roundtrip (t : Tlv) (r : Bytes) (h : t.WF) : Tlv.decode (t.encode ++
       toNat_ofNat_lt (show MetadataTLVFieldCode.EntityID.toNat < 256 by decide),
       MetadataTLVFieldCode.ofNat?_toNat, Option.elim, VarId.roundtrip i r h, pure, Except.pure]
 
+
+/-! ### Directives -/
+
+def faultWF : Option VarId → Prop
+  | none => True
+  | some i => i.WF
+
+theorem fssLen_pos (fss : FileSizeFlag) : fssLen fss = 4 ∨ fssLen fss = 8 := by cases fss <;> simp [fssLen]
+
+def Eof.WF (e : Eof) (fss : FileSizeFlag) : Prop :=
+  e.checksum < 256 ^ 4 ∧ e.fileSize < 256 ^ fssLen fss ∧ faultWF e.fault ∧
+  (e.cond = .NoError ↔ e.fault = none)
+
+theorem Eof.roundtrip (e : Eof) (fss : FileSizeFlag) (r : Bytes) (h : e.WF fss) :
+    Eof.decode fss (e.encode fss ++ r) = .ok (e, r) := by
+  obtain ⟨cond, checksum, fileSize, fault⟩ := e
+  obtain ⟨h1, h2, h3, h4⟩ := h
+  simp only at h1 h2 h3 h4
+  have hc := cond.toNat_le
+  have blt : cond.toNat * 16 < 256 := by omega
+  have e1 : cond.toNat * 16 / 16 = cond.toNat := by omega
+  cases fault with
+  | none =>
+    have : cond = .NoError := h4.mpr rfl
+    subst this
+    simp only [Eof.decode, Eof.encode, encFault, List.cons_append, List.append_assoc, List.append_nil,
+      readU8_cons, bind, Except.bind, toNat_ofNat_lt blt, e1, Condition.ofNat?_toNat, Option.elim,
+      readBE_beBytes 4 _ _ h1, readBE_beBytes _ _ _ h2, pure, Except.pure]
+  | some i =>
+    have hne : cond ≠ .NoError := fun hh => by have := h4.mp hh; cases this
+    simp only [Eof.decode, Eof.encode, encFault, List.cons_append, List.append_assoc,
+      readU8_cons, bind, Except.bind, toNat_ofNat_lt blt, e1, Condition.ofNat?_toNat, Option.elim,
+      readBE_beBytes 4 _ _ h1, readBE_beBytes _ _ _ h2,
+      toNat_ofNat_lt (show MetadataTLVFieldCode.EntityID.toNat < 256 by decide),
+      MetadataTLVFieldCode.ofNat?_toNat, VarId.roundtrip i r h3, pure, Except.pure]
+
+def Ack.WF (a : Ack) : Prop :=
+  (a.directive = .EoF ∧ a.sub = .Other) ∨ (a.directive = .Finished ∧ a.sub = .Finished)
+
+theorem Ack.roundtrip (a : Ack) (r : Bytes) (h : a.WF) : Ack.decode (a.encode ++ r) = .ok (a, r) := by
+  obtain ⟨directive, sub, cond, status⟩ := a
+  have hc := cond.toNat_le
+  have hs := status.toNat_le
+  have blt : cond.toNat * 16 + status.toNat < 256 := by omega
+  have e1 : (cond.toNat * 16 + status.toNat) / 16 = cond.toNat := by omega
+  have e2 : (cond.toNat * 16 + status.toNat) % 4 = status.toNat := by omega
+  rcases h with ⟨hd, hsb⟩ | ⟨hd, hsb⟩ <;> simp only at hd hsb <;> subst hd <;> subst hsb
+  · simp only [Ack.decode, Ack.encode, List.cons_append, List.nil_append, readU8_cons, bind, Except.bind,
+      toNat_ofNat_lt (show PDUDirective.EoF.toNat * 16 + ACKSubDirective.Other.toNat < 256 by decide),
+      show (PDUDirective.EoF.toNat * 16 + ACKSubDirective.Other.toNat) / 16 = PDUDirective.EoF.toNat by decide,
+      show (PDUDirective.EoF.toNat * 16 + ACKSubDirective.Other.toNat) % 16 = ACKSubDirective.Other.toNat by decide,
+      PDUDirective.ofNat?_toNat, ACKSubDirective.ofNat?_toNat, Option.elim, toNat_ofNat_lt blt, e1, e2,
+      Condition.ofNat?_toNat, TransactionStatus.ofNat?_toNat, pure, Except.pure]
+  · simp only [Ack.decode, Ack.encode, List.cons_append, List.nil_append, readU8_cons, bind, Except.bind,
+      toNat_ofNat_lt (show PDUDirective.Finished.toNat * 16 + ACKSubDirective.Finished.toNat < 256 by decide),
+      show (PDUDirective.Finished.toNat * 16 + ACKSubDirective.Finished.toNat) / 16 = PDUDirective.Finished.toNat by decide,
+      show (PDUDirective.Finished.toNat * 16 + ACKSubDirective.Finished.toNat) % 16 = ACKSubDirective.Finished.toNat by decide,
+      PDUDirective.ofNat?_toNat, ACKSubDirective.ofNat?_toNat, Option.elim, toNat_ofNat_lt blt, e1, e2,
+      Condition.ofNat?_toNat, TransactionStatus.ofNat?_toNat, pure, Except.pure]
+
+/-! #### list-valued tails (`read_to_end` + `while !remaining.is_empty()`) -/
+
+theorem Tlv.encode_ne_nil (t : Tlv) : t.encode ≠ [] := by simp [Tlv.encode]
+
+theorem decTlvs_encTlvs (ts : List Tlv) (fuel : Nat) (h : ∀ t ∈ ts, t.WF)
+    (hf : (encTlvs ts).length < fuel) : decTlvs fuel (encTlvs ts) = .ok ts := by
+  induction ts generalizing fuel with
+  | nil =>
+    cases fuel with
+    | zero => simp at hf
+    | succ f => simp [encTlvs, decTlvs]
+  | cons t ts ih =>
+    cases fuel with
+    | zero => simp at hf
+    | succ f =>
+      have ht := h t (List.mem_cons_self ..)
+      have hne := Tlv.encode_ne_nil t
+      have hlen : (encTlvs ts).length < f := by
+        simp only [encTlvs, List.length_append] at hf
+        have : 0 < t.encode.length := List.length_pos_iff.mpr hne
+        omega
+      have ih' := ih f (fun t ht => h t (List.mem_cons_of_mem _ ht)) hlen
+      simp only [encTlvs]
+      cases hte : t.encode ++ encTlvs ts with
+      | nil => simp at hte; exact absurd hte.1 hne
+      | cons b bs =>
+        simp only [decTlvs]
+        rw [← hte, Tlv.roundtrip t _ ht]
+        simp only [bind, Except.bind, ih', pure, Except.pure]
+
+theorem decRequests_encRequests (w : Nat) (hw : 0 < w) (rs : List (Nat × Nat)) (fuel : Nat)
+    (h : ∀ q ∈ rs, q.1 < 256 ^ w ∧ q.2 < 256 ^ w)
+    (hf : (encRequests w rs).length < fuel) : decRequests w fuel (encRequests w rs) = .ok rs := by
+  induction rs generalizing fuel with
+  | nil =>
+    cases fuel with
+    | zero => simp at hf
+    | succ f => simp [encRequests, decRequests]
+  | cons q rs ih =>
+    obtain ⟨a, b⟩ := q
+    cases fuel with
+    | zero => simp at hf
+    | succ f =>
+      have hq := h (a, b) (List.mem_cons_self ..)
+      have hlen : (encRequests w rs).length < f := by
+        simp only [encRequests, List.length_append, beBytes_length] at hf
+        omega
+      have ih' := ih f (fun t ht => h t (List.mem_cons_of_mem _ ht)) hlen
+      simp only [encRequests, List.append_assoc]
+      cases hte : beBytes w a ++ (beBytes w b ++ encRequests w rs) with
+      | nil =>
+        have := congrArg List.length hte
+        simp at this; omega
+      | cons x xs =>
+        simp only [decRequests]
+        rw [← hte, readBE_beBytes w a _ hq.1]
+        simp only [bind, Except.bind, readBE_beBytes w b _ hq.2, ih', pure, Except.pure]
+
+def Nak.WF (n : Nak) (fss : FileSizeFlag) : Prop :=
+  n.scopeStart < 256 ^ fssLen fss ∧ n.scopeEnd < 256 ^ fssLen fss ∧
+  ∀ q ∈ n.requests, q.1 < 256 ^ fssLen fss ∧ q.2 < 256 ^ fssLen fss
+
+theorem Nak.roundtrip (n : Nak) (fss : FileSizeFlag) (h : n.WF fss) :
+    Nak.decode fss (n.encode fss) = .ok (n, []) := by
+  obtain ⟨s, e, rs⟩ := n
+  obtain ⟨h1, h2, h3⟩ := h
+  have hw : 0 < fssLen fss := by rcases fssLen_pos fss with h | h <;> omega
+  simp only [Nak.decode, Nak.encode, List.append_assoc, bind, Except.bind, readBE_beBytes _ _ _ h1,
+    readBE_beBytes _ _ _ h2, decRequests_encRequests _ hw rs _ h3 (Nat.lt_succ_self _), pure, Except.pure]
+
+def Metadata.WF (m : Metadata) (fss : FileSizeFlag) : Prop :=
+  m.fileSize < 256 ^ fssLen fss ∧ nameOk m.srcName ∧ nameOk m.dstName ∧ ∀ t ∈ m.options, t.WF
+
+theorem Metadata.roundtrip (m : Metadata) (fss : FileSizeFlag) (h : m.WF fss) :
+    Metadata.decode fss (m.encode fss) = .ok (m, []) := by
+  obtain ⟨closure, ck, size, sn, dn, opts⟩ := m
+  obtain ⟨h1, ⟨h2, u2⟩, ⟨h3, u3⟩, h4⟩ := h
+  simp only at h1 h2 u2 h3 u3 h4
+  have hk := ck.toNat_le
+  have blt : (if closure then 1 else 0) * 64 + ck.toNat < 256 := by split <;> omega
+  have e1 : (((if closure then 1 else 0) * 64 + ck.toNat) / 64 % 2 != 0) = closure := by
+    cases closure <;> simp <;> omega
+  have e2 : ((if closure then 1 else 0) * 64 + ck.toNat) % 16 = ck.toNat := by
+    have : ck.toNat = 0 ∨ ck.toNat = 15 := by cases ck <;> simp [ChecksumType.toNat]
+    split <;> omega
+  simp only [Metadata.decode, Metadata.encode, List.cons_append, List.append_assoc, readU8_cons, bind,
+    Except.bind, toNat_ofNat_lt blt, e1, e2, ChecksumType.ofNat?_toNat, Option.elim,
+    readBE_beBytes _ _ _ h1, readName_encLV _ _ h2 u2, readName_encLV _ _ h3 u3,
+    decTlvs_encTlvs opts _ h4 (Nat.lt_succ_self _), pure, Except.pure]
+
+
+/-! #### Finished -/
+
+def Finished.WF (f : Finished) : Prop :=
+  (∀ p ∈ f.responses, p.WF ∧ p.encode.length ≤ 255) ∧ faultWF f.fault ∧ (f.cond = .NoError → f.fault = none)
+
+theorem finishedLoop_spec (cond : Condition) (fault : Option VarId) (ps acc : List FsResponse) (fuel : Nat)
+    (hps : ∀ p ∈ ps, p.WF ∧ p.encode.length ≤ 255) (hfw : faultWF fault)
+    (hc : cond = .NoError → fault = none)
+    (hf : (encResponses ps ++ encFault fault).length < fuel) :
+    finishedLoop cond fuel (encResponses ps ++ encFault fault) acc none = .ok (acc.reverse ++ ps, fault) := by
+  induction ps generalizing acc fuel with
+  | nil =>
+    cases fuel with
+    | zero => simp at hf
+    | succ f =>
+      cases fault with
+      | none => simp [encResponses, encFault, finishedLoop]
+      | some i =>
+        have hne : cond ≠ .NoError := fun hh => by have := hc hh; cases this
+        have hdec : VarId.decode i.encode = .ok (i, []) := by simpa using VarId.roundtrip i [] hfw
+        cases f with
+        | zero => simp [encResponses, encFault, VarId.encode] at hf
+        | succ f' =>
+          simp only [encResponses, encFault, List.nil_append, finishedLoop, bind, Except.bind,
+            toNat_ofNat_lt (show MetadataTLVFieldCode.EntityID.toNat < 256 by decide),
+            MetadataTLVFieldCode.ofNat?_toNat, Option.elim, hne, if_false, hdec, List.append_nil]
+  | cons p ps ih =>
+    cases fuel with
+    | zero => simp at hf
+    | succ f =>
+      obtain ⟨hp, hl⟩ := hps p (List.mem_cons_self ..)
+      have hdec : FsResponse.decode p.encode = .ok (p, []) := by simpa using FsResponse.roundtrip p [] hp
+      have hrest : (encResponses ps ++ encFault fault).length < f := by
+        simp only [encResponses, List.cons_append, List.length_cons, List.length_append] at hf ⊢
+        omega
+      have ih' := ih (p :: acc) f (fun q hq => hps q (List.mem_cons_of_mem _ hq)) hrest
+      have hlv : readLV (UInt8.ofNat p.encode.length :: (p.encode ++ (encResponses ps ++ encFault fault)))
+          = .ok (p.encode, encResponses ps ++ encFault fault) := by
+        have := readLV_encLV p.encode (encResponses ps ++ encFault fault) hl
+        simpa [encLV] using this
+      simp only [encResponses, List.cons_append, List.append_assoc, finishedLoop, bind, Except.bind,
+        toNat_ofNat_lt (show MetadataTLVFieldCode.FileStoreResponse.toNat < 256 by decide),
+        MetadataTLVFieldCode.ofNat?_toNat, Option.elim, hlv, hdec, ih']
+      simp
+
+theorem Finished.roundtrip (f : Finished) (h : f.WF) : Finished.decode f.encode = .ok (f, []) := by
+  obtain ⟨cond, delivery, fileStatus, responses, fault⟩ := f
+  obtain ⟨h1, h2, h3⟩ := h
+  simp only at h1 h2 h3
+  have hc := cond.toNat_le; have hd := delivery.toNat_le; have hs := fileStatus.toNat_le
+  have blt : cond.toNat * 16 + delivery.toNat * 4 + fileStatus.toNat < 256 := by omega
+  have e1 : (cond.toNat * 16 + delivery.toNat * 4 + fileStatus.toNat) / 16 = cond.toNat := by omega
+  have e2 : (cond.toNat * 16 + delivery.toNat * 4 + fileStatus.toNat) / 4 % 2 = delivery.toNat := by omega
+  have e3 : (cond.toNat * 16 + delivery.toNat * 4 + fileStatus.toNat) % 4 = fileStatus.toNat := by omega
+  have hl := finishedLoop_spec cond fault responses [] _ h1 h2 h3 (Nat.lt_succ_self _)
+  simp only [Finished.decode, Finished.encode, readU8_cons, bind, Except.bind, toNat_ofNat_lt blt, e1, e2,
+    e3, Condition.ofNat?_toNat, DeliveryCode.ofNat?_toNat, FileStatusCode.ofNat?_toNat, Option.elim, hl,
+    pure, Except.pure]
+  simp
+
+
+/-! ### Payload -/
+
+def Payload.WF (p : Payload) (fss : FileSizeFlag) : Prop :=
+  match p with
+  | .eof e => e.WF fss
+  | .finished f => f.WF
+  | .ack a => a.WF
+  | .metadata m => m.WF fss
+  | .nak n => n.WF fss
+  | .prompt _ => True
+  | .keepAlive g => g < 256 ^ fssLen fss
+  | .fileData off _ => off < 256 ^ fssLen fss
+  | .fileDataSeg _ m off _ => m.length ≤ 63 ∧ off < 256 ^ fssLen fss
+
+/-- header type / segment-metadata flag agree with the kind of payload -/
+def Payload.compat (p : Payload) (t : PDUType) (seg : SegmentedData) : Prop :=
+  match p with
+  | .fileData _ _ => t = .FileData ∧ seg = .NotPresent
+  | .fileDataSeg _ _ _ _ => t = .FileData ∧ seg = .Present
+  | _ => t = .FileDirective
+
+theorem Payload.roundtrip (p : Payload) (t : PDUType) (fss : FileSizeFlag) (seg : SegmentedData)
+    (hw : p.WF fss) (hc : p.compat t seg) :
+    decodePayload t fss seg (p.encode fss) = .ok (p, []) := by
+  cases p with
+  | eof e =>
+    simp only [Payload.compat] at hc; subst hc
+    have := Eof.roundtrip e fss [] hw
+    simp only [List.append_nil] at this
+    simp only [decodePayload, decodeDirective, Payload.encode, readU8_cons, bind, Except.bind,
+      toNat_ofNat_lt (show PDUDirective.EoF.toNat < 256 by decide), PDUDirective.ofNat?_toNat,
+      Option.elim, this, pure, Except.pure]
+  | finished f =>
+    simp only [Payload.compat] at hc; subst hc
+    simp only [decodePayload, decodeDirective, Payload.encode, readU8_cons, bind, Except.bind,
+      toNat_ofNat_lt (show PDUDirective.Finished.toNat < 256 by decide), PDUDirective.ofNat?_toNat,
+      Option.elim, Finished.roundtrip f hw, pure, Except.pure]
+  | ack a =>
+    simp only [Payload.compat] at hc; subst hc
+    have := Ack.roundtrip a [] hw
+    simp only [List.append_nil] at this
+    simp only [decodePayload, decodeDirective, Payload.encode, readU8_cons, bind, Except.bind,
+      toNat_ofNat_lt (show PDUDirective.Ack.toNat < 256 by decide), PDUDirective.ofNat?_toNat,
+      Option.elim, this, pure, Except.pure]
+  | metadata m =>
+    simp only [Payload.compat] at hc; subst hc
+    simp only [decodePayload, decodeDirective, Payload.encode, readU8_cons, bind, Except.bind,
+      toNat_ofNat_lt (show PDUDirective.Metadata.toNat < 256 by decide), PDUDirective.ofNat?_toNat,
+      Option.elim, Metadata.roundtrip m fss hw, pure, Except.pure]
+  | nak n =>
+    simp only [Payload.compat] at hc; subst hc
+    simp only [decodePayload, decodeDirective, Payload.encode, readU8_cons, bind, Except.bind,
+      toNat_ofNat_lt (show PDUDirective.Nak.toNat < 256 by decide), PDUDirective.ofNat?_toNat,
+      Option.elim, Nak.roundtrip n fss hw, pure, Except.pure]
+  | prompt k =>
+    simp only [Payload.compat] at hc; subst hc
+    have hk := k.toNat_le
+    have blt : k.toNat * 128 < 256 := by omega
+    have e1 : k.toNat * 128 / 128 = k.toNat := by omega
+    simp only [decodePayload, decodeDirective, Payload.encode, readU8_cons, bind, Except.bind,
+      toNat_ofNat_lt (show PDUDirective.Prompt.toNat < 256 by decide), PDUDirective.ofNat?_toNat,
+      Option.elim, toNat_ofNat_lt blt, e1, NakOrKeepAlive.ofNat?_toNat, pure, Except.pure]
+  | keepAlive g =>
+    simp only [Payload.compat] at hc; subst hc
+    have := readBE_beBytes (fssLen fss) g [] hw
+    simp only [List.append_nil] at this
+    simp only [decodePayload, decodeDirective, Payload.encode, readU8_cons, bind, Except.bind,
+      toNat_ofNat_lt (show PDUDirective.KeepAlive.toNat < 256 by decide), PDUDirective.ofNat?_toNat,
+      Option.elim, this, pure, Except.pure]
+  | fileData off d =>
+    obtain ⟨h1, h2⟩ := hc; subst h1; subst h2
+    simp only [decodePayload, decodeFileData, Payload.encode, bind, Except.bind,
+      readBE_beBytes _ off d hw, pure, Except.pure]
+  | fileDataSeg rcs m off d =>
+    obtain ⟨h1, h2⟩ := hc; subst h1; subst h2
+    obtain ⟨hm, ho⟩ := hw
+    have hr := rcs.toNat_le
+    have blt : rcs.toNat * 64 + m.length < 256 := by omega
+    have e1 : (rcs.toNat * 64 + m.length) / 64 = rcs.toNat := by omega
+    have e2 : (rcs.toNat * 64 + m.length) % 64 = m.length := by omega
+    simp only [decodePayload, decodeFileData, Payload.encode, List.append_assoc, readU8_cons, bind,
+      Except.bind, toNat_ofNat_lt blt, e1, e2, RecordContinuationState.ofNat?_toNat, Option.elim,
+      readN_append, readBE_beBytes _ off d ho, pure, Except.pure]
+
+/-! ### lengths: `encoded_len` is the number of bytes produced -/
+
+@[simp] theorem encLV_length (v : Bytes) : (encLV v).length = 1 + v.length := by simp [encLV]; omega
+@[simp] theorem VarId.toBe_length (i : VarId) : i.toBe.length = i.width := by simp [VarId.toBe]
+@[simp] theorem VarId.encode_length (i : VarId) : i.encode.length = 1 + i.width := by
+  simp [VarId.encode]; omega
+
+theorem Header.encode_length (h : Header) : h.encode.length = h.len := by
+  simp [Header.encode, Header.len]; omega
+
+theorem FsRequest.encode_length (q : FsRequest) : q.encode.length = q.len := by
+  simp [FsRequest.encode, FsRequest.len]; omega
+
+theorem FsResponse.encode_length (p : FsResponse) : p.encode.length = p.len := by
+  simp [FsResponse.encode, FsResponse.len]; omega
+
+theorem Tlv.encode_length (t : Tlv) : t.encode.length = t.len := by
+  cases t <;> simp [Tlv.encode, Tlv.len, FsRequest.encode_length, FsResponse.encode_length] <;> omega
+
+theorem encFault_length (f : Option VarId) : (encFault f).length = faultLen f := by
+  cases f <;> simp [encFault, faultLen]; omega
+
+theorem encTlvs_length (ts : List Tlv) : (encTlvs ts).length = (ts.map Tlv.len).sum := by
+  induction ts with
+  | nil => rfl
+  | cons t ts ih => simp [encTlvs, Tlv.encode_length, ih]
+
+theorem encResponses_length (ps : List FsResponse) :
+    (encResponses ps).length = (ps.map (fun p => 1 + 1 + p.len)).sum := by
+  induction ps with
+  | nil => rfl
+  | cons p ps ih => simp [encResponses, FsResponse.encode_length, ih]; omega
+
+theorem encRequests_length (w : Nat) (rs : List (Nat × Nat)) : (encRequests w rs).length = rs.length * (2 * w) := by
+  induction rs with
+  | nil => simp [encRequests]
+  | cons q rs ih =>
+    obtain ⟨a, b⟩ := q
+    simp [encRequests, ih, Nat.add_mul]; omega
+
+theorem Payload.encode_length (p : Payload) (fss : FileSizeFlag) (hs : ∀ r m o d, p = .fileDataSeg r m o d → True) :
+    (p.encode fss).length = p.len fss := by
+  cases p with
+  | eof e => simp [Payload.encode, Payload.len, Eof.encode, Eof.len, encFault_length]; omega
+  | finished f => simp [Payload.encode, Payload.len, Finished.encode, Finished.len, encFault_length, encResponses_length]; omega
+  | ack a => simp [Payload.encode, Payload.len, Ack.encode]
+  | metadata m => simp [Payload.encode, Payload.len, Metadata.encode, Metadata.len, encTlvs_length]; omega
+  | nak n => simp [Payload.encode, Payload.len, Nak.encode, Nak.len, encRequests_length]; omega
+  | prompt k => simp [Payload.encode, Payload.len]
+  | keepAlive g => simp [Payload.encode, Payload.len]; omega
+  | fileData off d => simp [Payload.encode, Payload.len]; omega
+  | fileDataSeg r m off d => simp [Payload.encode, Payload.len]; omega
+
+/-! ### CRC-16 stays a 16-bit value -/
+
+theorem crcBit_lt (c : Nat) : crcBit c < 65536 := by
+  unfold crcBit
+  split
+  · have h1 : c * 2 % 65536 < 2 ^ 16 := Nat.mod_lt _ (by decide)
+    have h2 : crcPoly < 2 ^ 16 := by decide
+    exact Nat.xor_lt_two_pow h1 h2
+  · exact Nat.mod_lt _ (by decide)
+
+theorem crcByte_lt (c : Nat) (b : UInt8) : crcByte c b < 65536 := crcBit_lt _
+
+theorem crc16_lt (msg : Bytes) : crc16 msg < 65536 := by
+  unfold crc16
+  have : ∀ (l : Bytes) (c : Nat), c < 65536 → l.foldl crcByte c < 65536 := by
+    intro l
+    induction l with
+    | nil => intro c h; exact h
+    | cons b l ih => intro c _; exact ih _ (crcByte_lt c b)
+  exact this msg crcInit (by decide)
+
 end Cfdp.Codec
